@@ -8,6 +8,7 @@ import (
 	"fmt"
 	"os"
 	"strings"
+	"sync/atomic"
 	"testing"
 
 	"github.com/influxdata/influxdb/pkg/verifhook"
@@ -129,7 +130,7 @@ func TestVerifC02Reads(t *testing.T) {
 					rt.Fatalf("harness: generated a conflicting batch")
 				}
 				cacheDirty[shard] = true
-				note(fmt.Sprintf("write(%d)", len(pts)))
+				note(fmt.Sprintf("write(shard %d, %d)", shard, len(pts)))
 			},
 			"rewriteIdentical": func(rt *rapid.T) {
 				// re-writing points that are already stored with identical values changes nothing
@@ -168,7 +169,8 @@ func TestVerifC02Reads(t *testing.T) {
 				shard := rapid.SampledFrom(b.shards).Draw(rt, "shard")
 				var typed []string
 				for tk := range b.types {
-					if strings.HasPrefix(tk, fmt.Sprintf("%d#", shard)) {
+					parts := strings.SplitN(tk, "#", 3)
+					if strings.HasPrefix(tk, fmt.Sprintf("%d#", shard)) && !b.uncertainTypes[parts[0]+"#"+parts[1]] {
 						typed = append(typed, tk)
 					}
 				}
@@ -216,20 +218,115 @@ func TestVerifC02Reads(t *testing.T) {
 					rt.Fatalf("%s batch with %d type-conflicting points returned %v (%T), want tsdb.PartialWriteError", verifkit.Sig("conflict-not-reported-as-partial-write"), want, err, err)
 				}
 				if pw.Dropped != want {
-					rt.Fatalf("%s PartialWriteError.Dropped=%d, want %d (%v)", verifkit.Sig("partial-write-dropped-count"), pw.Dropped, want, pw)
+					var desc []string
+					for _, p := range pts {
+						var ft []string
+						for f := range p.Fields {
+							ft = append(ft, fmt.Sprintf("%s:model=%c", f, b.types[vTypeKey(shard, p.M, f)]))
+						}
+						desc = append(desc, fmt.Sprintf("[%s conflict=%v %v]", p.String(), b.conflicts(shard, p), ft))
+					}
+					var storeTypes []string
+					for _, id := range b.shards {
+						for _, m := range b.measurements {
+							if mf := b.store.Shard(id).MeasurementFields([]byte(m)); mf != nil {
+								for _, f := range b.fields {
+									if fd := mf.Field(f); fd != nil {
+										storeTypes = append(storeTypes, fmt.Sprintf("%d#%s#%s=%c(model %c)", id, m, f, vTypeOfInfluxQL(fd.Type), b.types[vTypeKey(id, m, f)]))
+									}
+								}
+							}
+						}
+					}
+					rt.Fatalf("%s PartialWriteError.Dropped=%d, want %d (%v)\nshard %d batch: %s\nstore field types: %v\nhistory: %s", verifkit.Sig("partial-write-dropped-count"), pw.Dropped, want, pw, shard, strings.Join(desc, "\n  "), storeTypes, canon.String())
 				}
 				b.applyWrite(shard, pts)
 				cacheDirty[shard] = true
 				cls["op:conflict-write"] = true
 				note(fmt.Sprintf("conflictWrite(%d,%d)", len(pts), want))
 			},
+			"snapshotInstallFails": func(rt *rapid.T) {
+				// the new file cannot be installed (the file store observer refuses it): the snapshot must fail
+				// cleanly, everything stays readable from the cache, and a later snapshot succeeds
+				if rapid.IntRange(0, 2).Draw(rt, "rare") != 0 {
+					rt.Skip("rare")
+				}
+				shard := rapid.SampledFrom(b.shards).Draw(rt, "shard")
+				if !cacheDirty[shard] {
+					rt.Skip("nothing to snapshot")
+				}
+				atomic.StoreInt32(&vObs.failNext, 1)
+				before := atomic.LoadInt32(&vObs.refused)
+				err := b.snapshot(shard)
+				atomic.StoreInt32(&vObs.failNext, 0)
+				if atomic.LoadInt32(&vObs.refused) > before {
+					cls["op:snapshot-install-refused"] = true
+					if err == nil {
+						rt.Fatalf("%s WriteSnapshot returned nil although the file store refused to install the new file", verifkit.Sig("failed-snapshot-reported-as-success"))
+					}
+					nontrivial = true
+					// everything is still readable (cache snapshot kept for the retry)
+					got, rerr := b.readAll()
+					if rerr != nil {
+						rt.Fatalf("%s after a failed snapshot install: %v", verifkit.Sig("read-error"), rerr)
+					}
+					if kind, msg := b.diffModel(got); kind != "" {
+						rt.Fatalf("%s after a failed snapshot install: %s", verifkit.Sig("read-"+kind+"-after-failed-snapshot"), msg)
+					}
+					// retry at once: while the failed snapshot's store is pending, a delete would only reach the hot
+					// cache (known finding delete-inside-snapshot-window, C10); excluded here by construction
+					stats.Exclude("delete-inside-snapshot-window")
+					if err := b.snapshot(shard); err != nil {
+						rt.Fatalf("%s snapshot retry after an install failure: %v", verifkit.Sig("snapshot-error"), err)
+					}
+					cacheDirty[shard] = false
+				}
+				note("snapshotInstallFails")
+			},
 			"snapshot": func(rt *rapid.T) {
 				shard := rapid.SampledFrom(b.shards).Draw(rt, "shard")
 				withReads := rapid.Bool().Draw(rt, "readsInsideWindow")
 				var inside string
 				fired := false
-				if withReads {
+				// a write that overwrites stored points and lands after the cache snapshot was taken, before it is flushed
+				var lateWrite []vPt
+				if rapid.Bool().Draw(rt, "writeInsideWindow") {
+					var keys []vKey
+					for k := range b.model {
+						if k.Shard == shard {
+							keys = append(keys, k)
+						}
+					}
+					vSortKeys(keys)
+					n := rapid.IntRange(1, 4).Draw(rt, "nLate")
+					for i := 0; i < n && len(keys) > 0; i++ {
+						k := rapid.SampledFrom(keys).Draw(rt, "lateKey")
+						name, tags := vParseSeries(k.Series)
+						lateWrite = append(lateWrite, vPt{M: name, Tags: tags, Fields: map[string]vVal{k.Field: vDrawValue(rt, b.model[k].T)}, TS: k.TS})
+					}
+				}
+				lateDone := false
+				if withReads || len(lateWrite) > 0 {
 					verifhook.Set(func(ev, path string, n int64) {
+						if ev == "snap.taken" && len(lateWrite) > 0 && !lateDone {
+							lateDone = true
+							if err := b.write(shard, lateWrite); err != nil {
+								inside = "write inside snapshot window failed: " + err.Error()
+								return
+							}
+							b.applyWrite(shard, lateWrite)
+							cacheDirty[shard] = true
+							// read right away: the overwritten value sits in the in-flight snapshot, the new one in the hot cache
+							got, err := b.readAll()
+							if err != nil {
+								inside = "read error after a write inside the snapshot window: " + err.Error()
+							} else if kind, msg := b.diffModel(got); kind != "" {
+								inside = "read-" + kind + " after overwriting points held by the in-flight snapshot: " + msg
+							}
+						}
+						if !withReads {
+							return
+						}
 						if ev == "snap.written" && !fired {
 							fired = true
 							// the snapshot file is written but not yet installed: data of this shard is
@@ -257,7 +354,12 @@ func TestVerifC02Reads(t *testing.T) {
 					cls["read:inside-snapshot-window"] = true
 					nontrivial = true
 				}
-				cacheDirty[shard] = false
+				if lateDone {
+					cls["op:overwrite-inside-snapshot-window"] = true
+					nontrivial = true
+				} else {
+					cacheDirty[shard] = false
+				}
 				note("snapshot")
 			},
 			"compact": func(rt *rapid.T) {
@@ -285,7 +387,7 @@ func TestVerifC02Reads(t *testing.T) {
 				if n > 0 {
 					cls["op:delete-effective"] = true
 				}
-				note(fmt.Sprintf("delete(%d)", n))
+				note(fmt.Sprintf("delete(%v removed %d)", sel, n))
 			},
 			"reopen": func(rt *rapid.T) {
 				if err := b.reopen(); err != nil {
